@@ -68,8 +68,10 @@ fn cat(v: &[Vec<u8>]) -> Vec<u8> {
 }
 
 /// placeholders used by the specifications (their sources are ASCII) for multi-byte characters and for an invalid byte
-const SUBST: [(&str, &[u8]); 5] = [("~e~", "\u{e9}".as_bytes()), ("~z~", "\u{4e2d}".as_bytes()), ("~g~", "\u{1F600}".as_bytes()),
-                                   ("~u~", "\u{fc}".as_bytes()), ("~!~", &[0xFF])];
+/// ~a~ ~y~ ~A~ contain the continuation bytes 0xA0 / 0x85 (white space in Latin-1, not in UTF-8)
+const SUBST: [(&str, &[u8]); 8] = [("~e~", "\u{e9}".as_bytes()), ("~z~", "\u{4e2d}".as_bytes()), ("~g~", "\u{1F600}".as_bytes()),
+                                   ("~u~", "\u{fc}".as_bytes()), ("~!~", &[0xFF]), ("~a~", "\u{e0}".as_bytes()), ("~y~", "\u{5143}".as_bytes()),
+                                   ("~A~", "\u{c5}".as_bytes())];
 
 /// ~big~ expands to 70 000 highly compressible bytes (a single compressed chunk then inflates to more than any codec buffer)
 pub const BIG: &str = "~big~";
